@@ -458,6 +458,18 @@ func runC44(c *core.Check) {
 			}
 			_ = isCompile
 			c.Decide(reach, "C44.reread", "compileLoop:compile-after-wakeup", recv.Pos(), "compile is invoked after the wake-up (reads the file afresh)", "compile is not reachable after a wake-up")
+			// after every compile — successful or not — the set of watched files is refreshed from the files it opened,
+			// otherwise a change to a newly imported file never produces a compile request
+			isRefresh := func(n ast.Node) bool { return core.IsCallTo(info, n, "d2cli.(*watcher).replaceWatchList") }
+			for _, call := range callsIn(clp, false, "d2cli.compile") {
+				cb, ci, ok := fl.Locate(call)
+				if !ok {
+					continue
+				}
+				skip, _ := fl.ReachableFromAvoiding(cb, ci, rb, ri, isRefresh)
+				c.Decide(!skip, "C44.reread", "compileLoop:watchlist-refreshed-after-every-compile", call.Pos(), "replaceWatchList on every path from compile back to blocking",
+					"compileLoop can go back to waiting after a compile without refreshing the watch list (e.g. only on success): files first imported by a failing compile are never watched, so fixing them triggers nothing")
+			}
 		}
 	}
 }
